@@ -141,3 +141,109 @@ theorem eff_appendAlias_reserved {s : St} (h : Inv s) {v : Nat} (hv : v < s.n) {
   · rw [E1.self] at E2; exact E1.trans E2
 
 end Nstd.Str
+
+namespace Nstd.Str
+
+/-! ### every read-only call leaves a state in which all theorems apply again -/
+
+/-- the read-only calls change the state at most by taking C string views: they are silent -/
+theorem queries_silent {s : St} (h : Inv s) {v w : Nat} (hv : v < s.n) (hw : w < s.n) :
+    (∀ nd s' r, findS s v nd = some (s', r) → Silent s s') ∧
+    (∀ nd s' r, findLastS s v nd = some (s', r) → Silent s s') ∧
+    (∀ nd s' r, findOneOf s v nd = some (s', r) → Silent s s') ∧
+    (∀ nd s' r, findLastOf s v nd = some (s', r) → Silent s s') ∧
+    (∀ nd st s' r, findSFrom s v nd st = some (s', r) → Silent s s') ∧
+    (∀ nd st s' r, findOneOfFrom s v nd st = some (s', r) → Silent s s') ∧
+    (∀ c st s' r, findCFrom s v c st = some (s', r) → Silent s s') ∧
+    (∀ s' r, compareS s v w = some (s', r) → Silent s s') ∧
+    (∀ k s' r, compareN s v w k = some (s', r) → Silent s s') ∧
+    (∀ s' r, compareIC s v w = some (s', r) → Silent s s') ∧
+    (∀ k s' r, compareICN s v w k = some (s', r) → Silent s s') ∧
+    (∀ s' r, equalsIC s v w = some (s', r) → Silent s s') ∧
+    (∀ s' r, toBool s v = some (s', r) → Silent s s') ∧
+    (∀ s' r, hash s v = some (s', r) → Silent s s') ∧
+    (∀ seps skip s' r, split s v seps skip = some (s', r) → Silent s s') := by
+  have one : ∀ {s1 : St}, cview s v = some s1 → Silent s s1 := fun h1 => silent_cview h hv h1
+  have two : ∀ {s1 s2 : St}, cview s v = some s1 → cview s1 w = some s2 → Silent s s2 := by
+    intro s1 s2 h1 h2
+    have S1 := silent_cview h hv h1
+    exact S1.trans (silent_cview S1.inv (by rw [S1.n]; exact hw) h2)
+  have cic : ∀ s' r, compareIC s v w = some (s', r) → Silent s s' := by
+    intro s' r e
+    simp only [compareIC, Option.bind_eq_bind, Option.bind_eq_some_iff, Option.pure_def, Option.some.injEq,
+      Prod.mk.injEq] at e
+    obtain ⟨s1, h1, s2, h2, _, _, _, _, rfl, _⟩ := e
+    exact two h1 h2
+  refine ⟨?_, ?_, ?_, ?_, ?_, ?_, ?_, ?_, ?_, cic, ?_, ?_, ?_, ?_, ?_⟩
+  · intro nd s' r e
+    simp only [findS, Option.bind_eq_bind, Option.bind_eq_some_iff, Option.pure_def, Option.some.injEq,
+      Prod.mk.injEq] at e
+    obtain ⟨s1, h1, _, _, rfl, _⟩ := e; exact one h1
+  · intro nd s' r e
+    simp only [findLastS, Option.bind_eq_bind, Option.bind_eq_some_iff, Option.pure_def, Option.some.injEq,
+      Prod.mk.injEq] at e
+    obtain ⟨s1, h1, _, _, rfl, _⟩ := e; exact one h1
+  · intro nd s' r e
+    simp only [findOneOf, Option.bind_eq_bind, Option.bind_eq_some_iff, Option.pure_def, Option.some.injEq,
+      Prod.mk.injEq] at e
+    obtain ⟨s1, h1, _, _, rfl, _⟩ := e; exact one h1
+  · intro nd s' r e
+    simp only [findLastOf, Option.bind_eq_bind, Option.bind_eq_some_iff, Option.pure_def, Option.some.injEq,
+      Prod.mk.injEq] at e
+    obtain ⟨s1, h1, _, _, rfl, _⟩ := e; exact one h1
+  · intro nd st s' r e
+    simp only [findSFrom, Option.bind_eq_bind, Option.bind_eq_some_iff] at e
+    obtain ⟨d, _, e⟩ := e
+    split at e
+    · simp only [Option.pure_def, Option.some.injEq, Prod.mk.injEq] at e; rw [← e.1]; exact Silent.refl h
+    · simp only [Option.bind_eq_some_iff, Option.pure_def, Option.some.injEq, Prod.mk.injEq] at e
+      obtain ⟨s1, h1, _, _, rfl, _⟩ := e; exact one h1
+  · intro nd st s' r e
+    simp only [findOneOfFrom, Option.bind_eq_bind, Option.bind_eq_some_iff] at e
+    obtain ⟨d, _, e⟩ := e
+    split at e
+    · simp only [Option.pure_def, Option.some.injEq, Prod.mk.injEq] at e; rw [← e.1]; exact Silent.refl h
+    · simp only [Option.bind_eq_some_iff, Option.pure_def, Option.some.injEq, Prod.mk.injEq] at e
+      obtain ⟨s1, h1, _, _, rfl, _⟩ := e; exact one h1
+  · intro c st s' r e; exact silent_findCFrom h hv e
+  · intro s' r e
+    simp only [compareS, Option.bind_eq_bind, Option.bind_eq_some_iff, Option.pure_def, Option.some.injEq,
+      Prod.mk.injEq] at e
+    obtain ⟨s1, h1, s2, h2, _, _, _, _, rfl, _⟩ := e
+    exact two h1 h2
+  · intro k s' r e
+    simp only [compareN, Option.bind_eq_bind, Option.bind_eq_some_iff, Option.pure_def, Option.some.injEq,
+      Prod.mk.injEq] at e
+    obtain ⟨s1, h1, s2, h2, _, _, _, _, rfl, _⟩ := e
+    exact two h1 h2
+  · intro k s' r e
+    simp only [compareICN, Option.bind_eq_bind, Option.bind_eq_some_iff, Option.pure_def, Option.some.injEq,
+      Prod.mk.injEq] at e
+    obtain ⟨s1, h1, s2, h2, _, _, _, _, rfl, _⟩ := e
+    exact two h1 h2
+  · intro s' r e
+    simp only [equalsIC, Option.bind_eq_bind, Option.bind_eq_some_iff] at e
+    obtain ⟨dv, _, dw, _, e⟩ := e
+    split at e
+    · simp only [Option.pure_def, Option.some.injEq, Prod.mk.injEq] at e; rw [← e.1]; exact Silent.refl h
+    · simp only [Option.bind_eq_some_iff, Option.pure_def, Option.some.injEq, Prod.mk.injEq] at e
+      obtain ⟨⟨s2, k⟩, h2, rfl, _⟩ := e
+      exact cic _ _ h2
+  · intro s' r e
+    simp only [toBool, Option.bind_eq_bind, Option.bind_eq_some_iff] at e
+    obtain ⟨d, _, e⟩ := e
+    split at e
+    · simp only [Option.pure_def, Option.some.injEq, Prod.mk.injEq] at e; rw [← e.1]; exact Silent.refl h
+    · simp only [Option.bind_eq_some_iff] at e
+      obtain ⟨z, _, e⟩ := e
+      split at e
+      · simp only [Option.pure_def, Option.some.injEq, Prod.mk.injEq] at e; rw [← e.1]; exact Silent.refl h
+      · simp only [Option.bind_eq_some_iff, Option.pure_def, Option.some.injEq, Prod.mk.injEq] at e
+        obtain ⟨s1, h1, _, _, _, _, rfl, _⟩ := e; exact one h1
+  · intro s' r e
+    simp only [hash, Option.bind_eq_bind, Option.bind_eq_some_iff, Option.pure_def, Option.some.injEq,
+      Prod.mk.injEq] at e
+    obtain ⟨s1, h1, _, _, _, _, _, _, rfl, _⟩ := e; exact one h1
+  · intro seps skip s' r e; exact silent_split h hv e
+
+end Nstd.Str
